@@ -146,7 +146,20 @@ def gen_reply(rnd):
     msg = ''.join(rnd.choice(PIECES) for _ in range(rnd.randint(0, 6)))
     if msg[:1] and msg[0] in WS:
         msg = 'x' + msg
-    r = Reply(code, msg)
+    how = rnd.random()
+    if how < 0.7:
+        r = Reply(code, msg)
+    elif how < 0.8:           # the code is changed after the text (and with it an enhanced status code) was stored
+        r = Reply(str(rnd.randint(200, 599)), msg)
+        r.code = code
+    elif how < 0.9:           # text first, then the code
+        r = Reply()
+        r.message = msg
+        r.code = code
+    else:                     # copied from another reply, then given another code
+        r = Reply(str(rnd.randint(200, 599)))
+        r.copy(Reply(str(rnd.randint(200, 599)), msg))
+        r.code = code
     if rnd.random() < 0.15:
         r.enhanced_status_code = False
     return r
